@@ -35,6 +35,7 @@ valid if the number modulo 97 is 1. As such it has two check digits.
 """
 
 from stdnum.exceptions import *
+from stdnum.util import isdigits
 
 
 # the characters that can be used in numbers (int(x, 36) would also accept
@@ -64,7 +65,7 @@ def calc_check_digits(number):
 def validate(number):
     """Check whether the check digit is valid."""
     try:
-        valid = checksum(number) == 1
+        valid = checksum(number) == 1 and isdigits(number[-2:])
     except Exception:  # noqa: B902
         raise InvalidFormat()
     if not valid:
